@@ -331,7 +331,7 @@ func rcSource(specs []rcSpec) string {
 		}
 		sb.WriteString(")\n\n")
 	}
-	sb.WriteString("var _ = a.T\n\nvar _ = b.T\n")
+	sb.WriteString("var _ = a.T\n\nvar _ = b.T\n\nvar _ = plain\n")
 	return sb.String()
 }
 
@@ -367,9 +367,24 @@ func rcReplay(b rcBeh) string {
 			sa, sb := sel(f, "a"), sel(f, "b")
 			pa, ea := res.ResolveIdent(f, sa, "Sel", sa.Sel)
 			pb, eb := res.ResolveIdent(f, sb, "Sel", sb.Sel)
+			// an identifier that is no selector at all: on an undecidable file (a dot-import may provide it) the
+			// resolver has to refuse here too
+			var plain *ast.Ident
+			var plainParent ast.Node
+			ast.Inspect(f, func(n ast.Node) bool {
+				if vs, ok := n.(*ast.ValueSpec); ok && len(vs.Values) == 1 {
+					if id, ok := vs.Values[0].(*ast.Ident); ok && id.Name == "plain" {
+						plain, plainParent = id, vs
+					}
+				}
+				return true
+			})
+			pp, ep := res.ResolveIdent(f, plainParent, "Values", plain)
 			got.Err = ea != nil || eb != nil
-			if (ea != nil) != (eb != nil) {
-				got.A = "<one call refused, the other did not>"
+			if (ea != nil) != (eb != nil) || (ea != nil) != (ep != nil) {
+				got.A = "<one call refused, another did not>"
+			} else if ep == nil && pp != "" {
+				got.A = "<a plain identifier got the path " + pp + ">"
 			} else if !got.Err {
 				got.A, got.B = pa, pb
 			}
